@@ -445,6 +445,9 @@ func genDialogOp(g *gen, c *Cfg, n int, typ string) Op {
 	if g.prevCallID != "" && g.chance(12) {
 		// a Call-ID that extends another live call's Call-ID ('-' is an ordinary Call-ID character)
 		callID = g.prevCallID + g.pick("-2", "-", "-b@x")
+		if g.chance(35) && strings.ToUpper(g.prevCallID) != g.prevCallID {
+			callID = strings.ToUpper(g.prevCallID) // Call-IDs are compared as written: another call
+		}
 	}
 	g.prevCallID = callID
 	fromTag, toTag := g.tagValue(), g.tagValue()
@@ -457,6 +460,11 @@ func genDialogOp(g *gen, c *Cfg, n int, typ string) Op {
 		I: map[string]int{"prov": g.intn(3), "style": g.intn(1000), "early": g.intn(4)}}
 	if g.chance(30) {
 		op.I["b2b"] = 1
+	}
+	if typ == "invite" && g.chance(15) {
+		// the backend refuses the call; its answer carries both tags all the same, and what follows under these
+		// identifiers (the ACK first of all) belongs to that backend
+		op.I["initStatus"] = g.pick2(486, 404, 603, 302, 500, 480)
 	}
 	nreq := g.rng(1, 5)
 	meths := []string{"INFO", "UPDATE", "INVITE", "MESSAGE", "REFER", "NOTIFY", "OPTIONS", "PRACK", "PUBLISH"}
@@ -545,6 +553,12 @@ func genStickyPlan(seed uint64, tier string) *Plan {
 	}
 	if g.chance(25) {
 		g.tagPool = []string{g.tagValue(), g.tagValue()}
+		if g.chance(35) {
+			g.tagPool[1] = strings.ToUpper(g.tagPool[0]) // tags are compared as written
+			if g.tagPool[1] == g.tagPool[0] {
+				g.tagPool[1] = strings.ToLower(g.tagPool[0]) + "x"
+			}
+		}
 	}
 	n := 0
 	for i := 0; i < nd; i++ {
@@ -784,7 +798,12 @@ func (d *dlgWorld) installStickyRules(prop string) {
 			if mod.op.I["prov"] == 2 && mod.op.I["early"] > 0 {
 				final += 20 * time.Millisecond // room for an early-dialog exchange
 			}
-			out = append(out, respPlan{delay: final, status: 200, toTag: ids.toTag, expires: exp})
+			st := 200
+			if s := mod.op.I["initStatus"]; s != 0 {
+				st = s
+				w.stat("probe:initial-invite-refused-with-both-tags")
+			}
+			out = append(out, respPlan{delay: final, status: st, toTag: ids.toTag, expires: exp})
 			return out
 		case step == "sub":
 			return []respPlan{{delay: base, status: subStatus, toTag: ids.toTag, expires: exp}}
